@@ -3,6 +3,7 @@ import OsloPolicy.Model.Enforce
 import OsloPolicy.Spec.Grammar
 import OsloPolicy.Model.Validate
 import OsloPolicy.Model.Loader
+import OsloPolicy.Spec.Layers
 import OsloPolicy.Model.Sched
 import OsloPolicy.Model.External
 import OsloPolicy.Model.SampleGen
@@ -191,13 +192,15 @@ def fsOf (j : Json) : Except String FS := do
       pure (some ({ mtime := getNatD d "t", entries := es } : Dir))
   pure { main := main, dirs := dirs }
 
+def regOf (r : Json) : Except String RuleDefault := do
+  let cs ← toJVal (getD r "check_str")
+  let dep ← match getD r "deprecated" with
+    | .arr #[.str on, ov] => do let v ← toJVal ov; pure (some (s2l on, v))
+    | _ => pure none
+  pure ({ name := s2l (getStrD r "name"), checkStr := cs, deprecated := dep } : RuleDefault)
+
 def regsOf (j : Json) : Except String (List RuleDefault) :=
-  (getArrD j "regs").toList.mapM fun r => do
-    let cs ← toJVal (getD r "check_str")
-    let dep ← match getD r "deprecated" with
-      | .arr #[.str on, ov] => do let v ← toJVal ov; pure (some (s2l on, v))
-      | _ => pure none
-    pure ({ name := s2l (getStrD r "name"), checkStr := cs, deprecated := dep } : RuleDefault)
+  (getArrD j "regs").toList.mapM regOf
 
 def storeJson (s : Store) : Json :=
   .arr (s.map fun (k, t) => Json.arr #[Json.str (l2s k), Json.str (l2s t.print)]).toArray
@@ -279,9 +282,10 @@ def handle (j : Json) : Except String Json := do
     -- {"enforce_new_defaults":b, "regs":[…], "fs":<initial>, "steps":[{"op":"write|touch|delete","dir":i|null,"name":…,
     --   "c":content,"t":time} | {"op":"load","force":b,"fs":<snapshot>}]}
     let enforceNew := getBoolD j "enforce_new_defaults" true
-    let regs ← regsOf j
+    let regs0 ← regsOf j
     let fs0 ← fsOf (getD j "fs")
     let mut fs := fs0
+    let mut regs := regs0
     let mut e := Enf.init fs0.dirs.length
     let mut outs : Array Json := #[]
     for st in getArrD j "steps" do
@@ -302,6 +306,10 @@ def handle (j : Json) : Except String Json := do
         fs := fsStep fs (getNatD st "t") (.write (fileIdOf st) c)
       | "touch" => fs := fsStep fs (getNatD st "t") (.touch (fileIdOf st))
       | "delete" => fs := fsStep fs (getNatD st "t") (.delete (fileIdOf st))
+      | "register" => do
+        -- `register_default` between loads (Spec/Layers.lean `stepR`)
+        let d ← regOf (getD st "reg")
+        regs := (stepR enforceNew ⟨⟨fs, e, 0⟩, regs⟩ (.register d)).regs
       | o => throw s!"bad loader step {o}"
     pure (Json.mkObj [("loads", .arr outs)])
   | "pick_file" =>
